@@ -64,7 +64,13 @@ pub fn base_module_ex(g: &Grammar, t: &dyn Fn(&str, &str) -> String, extras: boo
         lim(e("TYPEDEF_MEASUREMENT", "TM", "c1").set("datatype", "FLOAT64_IEEE").set("conversion", &t("TYPEDEF_MEASUREMENT.conversion", "CM"))),
         e("TYPEDEF_STRUCTURE", "TS", "c1")
             .kid(ks("STRUCTURE_COMPONENT", &[("name", "comp"), ("component_type", &t("TYPEDEF_STRUCTURE.STRUCTURE_COMPONENT", "TM"))]))
+            .kid(ks("STRUCTURE_COMPONENT", &[("name", "tc"), ("component_type", "TC")]))
+            .kid(ks("STRUCTURE_COMPONENT", &[("name", "onlyone"), ("component_type", "TM")])),
+        // a second structure that also holds TC: a THIS. reference inside TC has to be valid in every structure that holds it
+        e("TYPEDEF_STRUCTURE", "TS2", "c1")
+            .kid(ks("STRUCTURE_COMPONENT", &[("name", "comp"), ("component_type", "TM")]))
             .kid(ks("STRUCTURE_COMPONENT", &[("name", "tc"), ("component_type", "TC")])),
+        e("INSTANCE", "I2", "c1").set("type_ref", "TS2"),
         e("INSTANCE", "I", "c1").set("type_ref", &t("INSTANCE.type_ref", "TS")),
         e("FUNCTION", "F2", "c1"),
         e("FUNCTION", "F", "c1")
@@ -165,12 +171,24 @@ fn alternatives(class: &str) -> Vec<(String, Option<String>)> {
         "obj-iq" => vec![missing("MISSING"), ok("NO_INPUT_QUANTITY"), ok("AX"), ok("I"), missing("TM"), missing("CM")],
         "obj" => vec![missing("MISSING"), ok("AX"), ok("M"), ok("I"), missing("TM"), missing("NO_INPUT_QUANTITY")],
         // TC is used as a component of TS (which has components comp and tc) and not directly by an INSTANCE
-        "obj-this" => vec![missing("MISSING"), ok("AX"), ok("THIS.comp"), ok("THIS.tc"), ("THIS.nope".to_string(), Some("nope".to_string()))],
+        "obj-this" => vec![missing("MISSING"), ok("AX"), ok("THIS.comp"), ok("THIS.tc"), ("THIS.nope".to_string(), Some("nope".to_string())), ("THIS.onlyone".to_string(), Some("onlyone".to_string()))],
         "typedef" => vec![missing("MISSING"), ok("TA"), ok("TC"), missing("M")],
         "group" => vec![missing("MISSING"), missing("F")],
         "transformer" => vec![missing("MISSING"), ok("NO_INVERSE_TRANSFORMER"), ok("T"), missing("C2")],
         _ => vec![],
     }
+}
+
+/// the alternatives of a class plus the placeholder names of the other positions (NO_COMPU_METHOD is a placeholder only where a
+/// conversion is expected, NO_INPUT_QUANTITY only for input quantities, NO_INVERSE_TRANSFORMER only for inverse transformers)
+fn alternatives_all(class: &str) -> Vec<(String, Option<String>)> {
+    let mut v = alternatives(class);
+    for ph in ["NO_COMPU_METHOD", "NO_INPUT_QUANTITY", "NO_INVERSE_TRANSFORMER"] {
+        if !v.iter().any(|(n, _)| n == ph) {
+            v.push((ph.to_string(), Some(ph.to_string())));
+        }
+    }
+    v
 }
 
 fn xref_targets(rep: &[A2lError]) -> (BTreeSet<String>, Vec<String>) {
@@ -494,7 +512,7 @@ pub fn run(tier: &str) -> Run {
     run.sample(json!({"label": "consistent base module", "text": short(&base, 1500)}));
     let mut cases = Vec::new();
     for (pos, class) in POSITIONS {
-        for (alt, expect) in alternatives(class) {
+        for (alt, expect) in alternatives_all(class) {
             let p = pos.to_string();
             let a = alt.clone();
             let text = base_module(&g, &move |id, d| if id == p { a.clone() } else { d.to_string() });
